@@ -44,6 +44,9 @@ struct VmContext {
     loader: KCell<ModuleLoader>,
     // The cached export maps of imported modules
     module_cache: KCell<ModuleCache>,
+    // The deadline of the execution that's currently in progress,
+    // shared with the nested executions that it causes (see `execute_instructions`).
+    execution_deadline: KCell<Option<Instant>>,
 }
 
 impl Default for VmContext {
@@ -86,6 +89,7 @@ impl VmContext {
             core_lib,
             loader: ModuleLoader::default().into(),
             module_cache: ModuleCache::default().into(),
+            execution_deadline: None.into(),
         }
     }
 }
@@ -867,12 +871,41 @@ impl KotoVm {
     }
 
     fn execute_instructions(&mut self) -> Result<KValue> {
-        let mut timeout = self
-            .context
-            .settings
-            .execution_limit
-            .map(ExecutionTimeout::new);
+        // An execution can cause nested executions, e.g. in functions that are called by native
+        // functions, in overridden operators, or in generators. The nested executions share the
+        // deadline of the outermost execution, otherwise the time that's spent in them would only
+        // be noticed by the outermost execution when it next happens to check the clock.
+        let (timeout, owns_deadline) = match self.context.settings.execution_limit {
+            Some(execution_limit) => {
+                let mut shared_deadline = self.context.execution_deadline.borrow_mut();
+                match *shared_deadline {
+                    Some(deadline) => (
+                        Some(ExecutionTimeout::with_deadline(execution_limit, deadline)),
+                        false,
+                    ),
+                    None => {
+                        let timeout = ExecutionTimeout::new(execution_limit);
+                        *shared_deadline = Some(timeout.deadline);
+                        (Some(timeout), true)
+                    }
+                }
+            }
+            None => (None, false),
+        };
 
+        let result = self.execute_instructions_with_timeout(timeout);
+
+        if owns_deadline {
+            *self.context.execution_deadline.borrow_mut() = None;
+        }
+
+        result
+    }
+
+    fn execute_instructions_with_timeout(
+        &mut self,
+        mut timeout: Option<ExecutionTimeout>,
+    ) -> Result<KValue> {
         self.instruction_ip = self.ip();
 
         // Sequences or strings that are under construction when an error leaves this function
@@ -4315,6 +4348,18 @@ impl ExecutionTimeout {
             instructions_since_last_check: 0,
             execution_limit,
         }
+    }
+
+    // Makes a timeout for a nested execution that shares the deadline of an outer execution
+    fn with_deadline(execution_limit: Duration, deadline: Instant) -> Self {
+        let mut result = Self::new(execution_limit);
+        result.deadline = deadline;
+        if result.last_check >= deadline {
+            // The deadline has already been reached,
+            // so the clock gets checked when the first instruction is executed.
+            result.interval_instructions = 0;
+        }
+        result
     }
 
     // Returns true if the deadline has been reached, and false otherwise
